@@ -149,14 +149,14 @@ def run_traced(k3, dbdir, opts, ops, workdir, fail=None, timeout=600, logidx=Fal
         rc, out, err = -999, (e.stdout or b'').decode('latin1'), 'TIMEOUT'
     return rc, out, err, parse_io_trace(tr), sh
 
-def recover_and_read(k2, img, shadow, dst, opts, followup=None, timeout=60, initial_dir=None):
+def recover_and_read(k2, img, shadow, dst, opts, followup=None, timeout=60, initial_dir=None, env=None):
     """Run the real ldb_open on a materialised image, scan, then an optional follow-up workload."""
     materialise(img, shadow, dst, initial_dir=initial_dir)
     ops = ['open', 'scan -', 'layout']
     if followup: ops += followup
     args = [k2, dst] + ['%s=%s' % kv for kv in sorted(opts.items())]
     try:
-        r = subprocess.run(args, input=('\n'.join(ops) + '\n').encode(), capture_output=True, timeout=timeout)
+        r = subprocess.run(args, input=('\n'.join(ops) + '\n').encode(), capture_output=True, timeout=timeout, env=(dict(os.environ, **env) if env else None))
         out = r.stdout.decode('latin1'); rc = r.returncode
     except subprocess.TimeoutExpired:
         out = ''; rc = -999
